@@ -339,6 +339,7 @@ class C08(core.PropertyCheck):
         (":option:`{f}mongod --port`", None), (":option:`{f}--port`", None),
         # whitespace variants between program and option (double space, tab, wrapped across source lines)
         (":option:`{f}mongod  --port`", None), (":option:`{f}mongod\t--port`", None), (":option:`{f}mongod\n--port`", None), (":binary:`{f}mongod`", None), (":binary:`{f}bin.mongod`", None),
+        (":py:class:`{f}foo.Bar`", None), (":mongodb:setting:`{f}net.port`", None),
     ]
 
     def gen_text(self, rng):
@@ -352,6 +353,10 @@ class C08(core.PropertyCheck):
             [".. dbcommand:: find", "", "   cmd", ""],
             [".. program:: mongod", "", ".. option:: --port <n>", "", "   port", ""],
             [".. binary:: mongod", "", "   bin", ""],
+            # the same kinds of object with the directive written under its qualified name
+            [".. mongodb:setting:: net.port", "", "   the port", ""],
+            [".. py:class:: foo.Bar", "", "   a class", ""],
+            [".. mongodb:dbcommand:: find", "", "   cmd", ""],
             [".. _lbl:", "", "Another", "-------", ""],
             ["Sub Heading", "-----------", ""],
         ]
@@ -588,6 +593,14 @@ class C08(core.PropertyCheck):
                     for i in ident["ids"]:
                         defs.setdefault(f"{t['domain']}:{t['role']}:{norm(i)}", []).append(
                             (p["slug"], t["html_id"], tuple(ident["ids"]), inl_text(ident["title"])))
+        if case["kind"] == "text":
+            for p in impl["pages"]:
+                for t in p["targets"]:
+                    if ":" in t["role"]:
+                        # independent of how roles look targets up: a role is named <domain>:<name>, so a definition whose NAME
+                        # holds a domain prefix of its own can be reached by no reference at all
+                        return (f"definition {t['domain']}:{t['role']} {[i for ident in t['idents'] for i in ident['ids']]} on {p['slug']} is registered under a "
+                                f"role name that itself holds a domain prefix (directive written under its qualified name): no reference role resolves to it")
         invs = case.get("inv") or []
         diag_count = {}
         for f, ds in impl["diags"].items():
